@@ -49,16 +49,15 @@ def run_replay_with_crash_isolation(exe, args, outdir, res, what):
     return json.load(open(os.path.join(outdir, "summary.json")))
 
 
-def jt_replay(prop, tier, seed, res, exe=None):
+def jt_replay(prop, tier, seed, res, exe=None, classes=("verdict", "panic", "crash")):
     beh, st = jt_behaviours(tier)
     exe = exe or build_harness()
     out = fresh(prop, "replay")
-    for f in __import__("glob").glob(os.path.join(vlib.WORK, "replay", prop + "-*.json")):
-        os.remove(f)
     summ = run_replay_with_crash_isolation(exe, ["jt-replay", "--beh", beh, "--tables", tables(), "--seed", seed,
                                            "--tier", tier, "--out", out, "--prop", prop], out, res, "jt-replay")
     for m in summ["mismatches"]:
-        res.add_mismatch(m)
+        if m.get("class") in classes:
+            res.add_mismatch(m)
     c = res.coverage
     c["states"] += st["distinct"]
     c["transitions"] += st["states"]
@@ -66,7 +65,7 @@ def jt_replay(prop, tier, seed, res, exe=None):
     c["distinct_nontrivial"] += summ["nontrivial"]
     c["traces_validated_against_impl"] += summ["behaviours"]
     c["samples"] += summ["samples"][:3]
-    c.setdefault("replay", {})["jt"] = {k: summ[k] for k in ("behaviours", "cases", "evaluations", "per_ep", "per_kind", "panics")}
+    c.setdefault("replay", {})["jt"] = {k: summ[k] for k in ("behaviours", "cases", "evaluations", "per_ep", "per_kind", "panics", "value_checks", "leak_checks")}
     c.setdefault("tlc", {})["MC_JsonText"] = st
     return summ
 
@@ -120,4 +119,43 @@ def check_C02(tier, seed):
     jt_replay("C02", tier, seed, res)
     jt_record_validate("C02", tier, seed, res, 4000 if tier == QUICK else 200000)
     res.coverage["exhaustive"] = True
+    return res.finish()
+
+
+def check_C03(tier, seed):
+    res = Result("C03", tier, seed, "model_checking")
+    res.coverage["rule"] = ("every accepted class string explored by TLC is parsed through the whole-input in-place path, the embedded copy path "
+                            "(tuple, struct, second document of a stream) and the raw-number / lossy configurations; the returned Value is walked through "
+                            "the public read API and compared with Denotes(text) emitted by TLC (S->I); recorded random documents: TLC evaluates "
+                            "Denotes(bytes) and compares the dump, numbers by classification, integer digits and exact correctly-rounded binary64 (I->S); "
+                            "MC_JsonValue checks Denotes(Render(v)) = v. non-trivial = grammar-valid texts of >= 3 classes")
+    res.assumptions += ["float values in the S->I direction are compared by classification only (exactness is decided by the I->S pass and by C07)"]
+    jt_replay("C03", tier, seed, res, classes=("value", "inconsistent"))
+    jt_record_validate("C03", tier, seed + 1, res, 4000 if tier == QUICK else 200000, checks=("value",))
+    res.coverage["exhaustive"] = True
+    return res.finish()
+
+
+def check_C20(tier, seed):
+    res = Result("C20", tier, seed, "model_checking")
+    res.coverage["rule"] = ("every rejected document of the generators (truncations, single-byte corruptions, invalid UTF-8, multi-line documents) on every "
+                            "entry point: TLC checks offset <= length, (line, column) = LineCol(input, offset), Display/Debug returned, no lookup category; "
+                            "streams and iterators are polled 3 more times after the first error/end (latch). non-trivial = rejected inputs with an error record")
+    jt_record_validate("C20", tier, seed + 2, res, 6000 if tier == QUICK else 300000, checks=("errpos",))
+    st = vlib.tlc_mc("MC_Errors", {}, tag="MC_Errors")
+    res.coverage["states"] += st["distinct"]
+    res.coverage["transitions"] += st["states"]
+    res.coverage.setdefault("tlc", {})["MC_Errors"] = {k: st[k] for k in ("states", "distinct", "seconds")}
+    res.coverage["distinct_nontrivial"] = res.coverage["record"]["jt"].get("rejected_docs", 0)
+    return res.finish()
+
+
+def check_C01(tier, seed):
+    res = Result("C01", tier, seed, "exploration")
+    res.coverage["rule"] = ("the input spaces of the JsonText behaviours (exhaustive class strings, concretised; leaf completions; loop runs) and of the "
+                            "random/mutation generators are executed on all byte-string entry points in a crash-isolated worker with overflow checks and "
+                            "debug assertions (std UB precondition checks) enabled; observations: panic, abort/signal, heap growth across a repeated case, "
+                            "deep nesting family, guard-page placement. non-trivial = grammar-valid texts of >= 3 classes")
+    jt_replay("C01", tier, seed, res, classes=("panic", "crash", "leak"))
+    jt_record_validate("C01", tier, seed + 3, res, 4000 if tier == QUICK else 300000, checks=("panic",))
     return res.finish()
